@@ -51,13 +51,35 @@ def small_itiers(G=8, maxn=3, rng=None, span_extra=False):
     return tiers
 
 
+_LONG = [0.0, 0]
+
+
+def _long_size(rng, long_p):
+    """Every 1/long_p-th tier asked for is a long one -- a fixed stride, not a coin, so that each run has its share -- with
+    far more entries than any short-cut for "small" tiers would expect: > 64 and > 128 mostly, in turn > 256, > 512, > 1024."""
+    if not long_p:
+        return None
+    _LONG[0] += long_p
+    if _LONG[0] < 1.0:
+        return None
+    _LONG[0] -= 1.0
+    _LONG[1] += 1
+    lo, hi = [(66, 140), (66, 140), (260, 400), (66, 140), (520, 700), (1030, 1200)][_LONG[1] % 6]
+    return rng.randint(lo, hi)
+
+
+def reseed_long(seed):
+    """for generators that run inside a case (not in generate): the stride starts from the case's own seed, so that what a
+    case does never depends on which cases ran before it in the process"""
+    _LONG[0], _LONG[1] = (seed % 997) / 997.0, seed % 6
+
+
 def random_itier(rng, maxn=10, tmax=60, labels=LABELS, name="tier", tight=None, long_p=0.0):
     """Random wf interval tier: sorted, disjoint (touching with prob.), inside span."""
-    u = rng.random() if long_p else 1.0
+    nl = _long_size(rng, long_p)
+    u = 0.0 if nl else 1.0
     if u < long_p:
-        # rarely a tier with far more entries than any short-cut for "small" tiers would expect (> 64, > 128; now and
-        # then > 256, > 512, > 1024)
-        n = rng.randint(66, 140) if rng.random() < 0.8 else rng.randint(260, 1150)
+        n = nl
         tmax = max(tmax, 3 * n)
     elif tmax >= 30 and rng.random() < 0.04:
         maxn = max(maxn, 12)         # now and then a tier long enough for two-digit indices
@@ -84,9 +106,10 @@ def random_itier(rng, maxn=10, tmax=60, labels=LABELS, name="tier", tight=None, 
 
 
 def random_ptier(rng, maxn=10, tmax=60, labels=LABELS, name="pts", distinct=True, long_p=0.0):
-    u = rng.random() if long_p else 1.0
+    nl = _long_size(rng, long_p)
+    u = 0.0 if nl else 1.0
     if u < long_p:
-        n = rng.randint(66, 140) if rng.random() < 0.8 else rng.randint(260, 1300)
+        n = nl
         tmax = max(tmax, 2 * n)
     elif tmax >= 30 and rng.random() < 0.04:
         maxn = max(maxn, 12)
@@ -123,7 +146,12 @@ def shift_tier(t, off):
 
 def shrink_tier(t):
     """Candidate smaller tiers (drop one entry at a time)."""
-    for k in range(len(t["entries"])):
+    n = len(t["entries"])
+    if n > 16:
+        # a long tier: halves and quarters first
+        for a, b in ((0, n // 2), (n // 2, n), (0, n // 4), (n // 4, n // 2), (n // 2, 3 * n // 4), (3 * n // 4, n)):
+            yield dict(t, entries=t["entries"][:a] + t["entries"][b:])
+    for k in range(min(n, 40)):
         t2 = dict(t)
         t2["entries"] = t["entries"][:k] + t["entries"][k + 1:]
         yield t2
